@@ -10,6 +10,8 @@ from . import extract, manifest
 def seed_eval(patch, props=None):
     patch = os.path.abspath(patch)
     repo = extract.REPO
+    from .variant import repo_state_lock
+    lock = repo_state_lock(True)
     st = subprocess.run(["git", "-C", repo, "status", "--porcelain", "--untracked-files=no"], stdout=subprocess.PIPE, text=True).stdout.strip()
     if st:
         print("refusing: /repo has local modifications:\n" + st)
@@ -29,6 +31,7 @@ def seed_eval(patch, props=None):
                 results[p]["error"] = rr.stdout[-400:]
     finally:
         subprocess.run(["git", "-C", repo, "checkout", "--", "."], check=False)
+        lock.close()
     return 0, results
 
 
